@@ -95,9 +95,27 @@ func writerAPI(c *an.Ctx) *writerAPIInfo {
 		if res.Blowup {
 			continue
 		}
+		// ways out that certainly report an error do not count: a writer that refuses to go on after a failed write
+		// (sticky error) still appends / flushes whenever it reports success
+		errOnly := map[*ssa.Return]bool{}
+		if nres := fn.Signature.Results().Len(); nres > 0 && isErrorType(fn.Signature.Results().At(nres-1).Type()) {
+			byRet := map[*ssa.Return][]an.RetCase{}
+			for _, rc := range an.ReturnCases(fn) {
+				byRet[rc.Ret] = append(byRet[rc.Ret], rc)
+			}
+			for ret, cases := range byRet {
+				all := len(cases) > 0
+				for _, rc := range cases {
+					if !provablyNonNilCase(rc.Vals[nres-1], rc) {
+						all = false
+					}
+				}
+				errOnly[ret] = all
+			}
+		}
 		allA, allClean, n := true, true, 0
 		for _, ret := range an.Returns(fn) {
-			if !res.Reachable(ret.Block()) {
+			if !res.Reachable(ret.Block()) || errOnly[ret] {
 				continue
 			}
 			for _, st := range res.Before(ret) {
